@@ -105,6 +105,7 @@ def apply_closure(prog, clo, args):
 
 # preconditions in force (see `given`): callbacks (atom, polarity) -> "this literal cannot hold"
 _REFUTED = []
+_TOK = 0
 
 
 class given:
@@ -115,6 +116,12 @@ class given:
         self.refuted = refuted
 
     def __enter__(self):
+        global _TOK
+        _TOK += 1
+        try:
+            self.refuted._tok = _TOK
+        except Exception:
+            pass
         _REFUTED.append(self.refuted)
         return self
 
@@ -317,37 +324,81 @@ def is_assertion_switch(fn, src):
     return False
 
 
+def _edge_literals(ev, src, val, prog):
+    """Literals that hold on the switch edge (src, val)."""
+    d = ev.switch.get(src)
+    tj = ev.fn.blocks[src]["term"]
+    lits = set()
+    if d is None:
+        return lits
+    if tj.get("ty") == "bool":
+        f = formula(d, prog)
+        if val == 0:
+            lits |= literals(f, False)
+        else:
+            # `otherwise` of a bool switch with arm 0 => true ; explicit 1 => true
+            lits |= literals(f, True)
+    else:
+        ds = strip_sites(d)
+        # `cond.then_some(()).ok_or(e)?`: on the Continue edge of Try::branch the combinator chain succeeded
+        if ds.op == "discr" and ds.a[0].op == "call" and _name(ds.a[0]) == "Try::branch" and ds.a[0].a[1] and val == 0:
+            alts = success_alternatives(ds.a[0].a[1][0], prog)
+            if len(alts) == 1:
+                lits |= alts[0]
+        if val == "otherwise":
+            arms = tuple(v for v, _ in tj["arms"])
+            lits.add((("atom", "switch_not", ds, arms), True))
+        else:
+            lits.add((("atom", "switch", ds, val), True))
+    return lits
+
+
+def _must_literals(ev, prog, checks_only):
+    """Forward must-analysis: L(b) = the literals that hold on EVERY way of reaching block b (back edges ignored: the
+    literals are about immutable values, a second pass through a loop header can only add to them).  At a merge this is
+    the intersection over the incoming edges - which keeps a guard that every incoming path established separately
+    (`if let Some(..) = x { if bad { return Err } }` merges the None path and the checked path) - minus the edges that
+    cannot be taken: folded constants, and paths whose literals a precondition in force (`given`) refutes."""
+    fn = ev.fn
+    cfg = fn.cfg
+    order = [n for n in cfg.rpo() if not isinstance(n, tuple)]
+    idx = {n: i for i, n in enumerate(order)}
+    dead = getattr(ev, "dead", set())
+    L = {}
+    incoming = {}
+    for n in order:
+        for tgt, lab in cfg.succ[n]:
+            incoming.setdefault(tgt, []).append((n, lab))
+    for n in order:
+        if n == order[0]:
+            L[n] = frozenset()
+            continue
+        acc = None
+        for p_, lab in incoming.get(n, []):
+            if p_ not in L or L[p_] is None or idx.get(p_, 1 << 30) >= idx[n]:
+                continue  # back edge, unreachable, or infeasible under the precondition
+            if (p_, n, lab) in dead:
+                continue
+            lits = set(L[p_])
+            if lab is not None and not (checks_only and is_assertion_switch(fn, p_)):
+                lits |= _edge_literals(ev, p_, lab[2], prog)
+            if _REFUTED and any(r(atom, pol) for r in _REFUTED for atom, pol in lits):
+                continue
+            acc = lits if acc is None else (acc & lits)
+        L[n] = frozenset(acc) if acc is not None else None
+    return L
+
+
 def path_literals(ev, b, prog=None, checks_only=False):
-    """Literals (atom, polarity) implied by the switch edges dominating block b.
+    """Literals (atom, polarity) that hold whenever block b is reached (see _must_literals).
     Bool switches contribute formula literals; integer/discriminant switches contribute
     ("atom","switch", discr_term, value) literals.  With checks_only the surviving edges of assertions are left out
     (an assertion is not a guard: `debug_assert!` does not exist in release builds)."""
-    lits = set()
-    for src, val, d, tj in edge_conditions(ev, b):
-        if d is None:
-            continue
-        if checks_only and is_assertion_switch(ev.fn, src):
-            continue
-        if tj.get("ty") == "bool":
-            f = formula(d, prog)
-            if val == 0:
-                lits |= literals(f, False)
-            else:
-                # `otherwise` of a bool switch with arm 0 => true ; explicit 1 => true
-                lits |= literals(f, True)
-        else:
-            ds = strip_sites(d)
-            # `cond.then_some(()).ok_or(e)?`: on the Continue edge of Try::branch the combinator chain succeeded
-            if ds.op == "discr" and ds.a[0].op == "call" and _name(ds.a[0]) == "Try::branch" and ds.a[0].a[1] and val == 0:
-                alts = success_alternatives(ds.a[0].a[1][0], prog)
-                if len(alts) == 1:
-                    lits |= alts[0]
-            if val == "otherwise":
-                arms = tuple(v for v, _ in tj["arms"])
-                lits.add((("atom", "switch_not", ds, arms), True))
-            else:
-                lits.add((("atom", "switch", ds, val), True))
-    return lits
+    cache = ev.__dict__.setdefault("_must_cache", {})
+    key = (id(prog), bool(checks_only), tuple(getattr(r, "_tok", id(r)) for r in _REFUTED))
+    if key not in cache:
+        cache[key] = _must_literals(ev, prog, checks_only)
+    return set(cache[key].get(b) or frozenset())
 
 
 def variant_of_switch(prog, fn, src_bb, val):
